@@ -337,6 +337,8 @@ def plan_C17(tier, seed):
 
 def _nt_c12(ev):
     k = ev["k"]
+    if k == "conj":
+        return (k, ev["half"], ev["star"], ev["even"], tuple(ev["pa"]), tuple(ev["pd"]), ev["form"])
     key = (k, ev["form"], tuple(ev["xin"]), ev["deg"])
     if k == "eval":
         return key + (ev["xf"],)
@@ -351,6 +353,8 @@ def plan_C12(tier, seed):
     T = ("Trace_Interp", "Trace.cfg")
     nsh, per = (16, 110) if tier == "quick" else (48, 1200)
     sh = [Shard("itp_%02d" % i, drv_interp.gen_interp, dict(seed=seed, shard=i, n=per), *T) for i in range(nsh)]
+    sh += [Shard("conj_%02d" % i, drv_interp.gen_conj, dict(seed=seed, shard=i, n=400 if tier == "quick" else 5000), *T)
+           for i in range(2 if tier == "quick" else 8)]
     return dict(
         mc=[MC("MC_InterpClamp", "MC_InterpClamp.cfg", workers=4, heap="2g",
                note="effective search interval law on a grid of limits vs table ends")],
